@@ -143,7 +143,7 @@ func (c *Client) fetchMetadata(
 ) {
 	log.Debugf("consume: fetching object metadata %s", name)
 	args := ExpressRArgs{
-		Name: append(name,
+		Name: append(name.Clone(),
 			enc.NewStringComponent(enc.TypeKeywordNameComponent, "metadata"),
 		),
 		Config: &ndn.InterestConfig{
